@@ -64,6 +64,7 @@ const specJSON = `{"openapi":"3.0.3","info":{"title":"t","version":"1"},"paths":
   "200":{"description":"ok","content":{"application/json":{"schema":{"type":"object","required":["ok"],"properties":{"ok":{"type":"boolean"},"m":{"type":"string"}},"additionalProperties":false}}}},
   "201":{"description":"created"},
   "418":{"description":"teapot","headers":{"X-Tea":{"required":true,"schema":{"type":"string"}}}}}}},
+ "/g":{"get":{"parameters":[{"name":"q","in":"query","required":true,"schema":{"type":"integer"}}],"responses":{"200":{"description":"ok"}}}},
  "/sec":{"post":{"security":[{"key":[]}],"responses":{"200":{"description":"ok"}}}}},
  "components":{"securitySchemes":{"key":{"type":"apiKey","name":"X-Key","in":"header"}}}}`
 
@@ -102,6 +103,13 @@ func request(kind string) *http.Request {
 	switch kind {
 	case "unroutable":
 		return httptest.NewRequest("POST", "http://localhost/nowhere?q=1", nil)
+	case "unroutable-head":
+		// a method the path does not declare; the request would be a valid GET
+		return httptest.NewRequest("HEAD", "http://localhost/g?q=1", nil)
+	case "unroutable-head-bad":
+		return httptest.NewRequest("HEAD", "http://localhost/g", nil)
+	case "unroutable-method":
+		return httptest.NewRequest("DELETE", "http://localhost/r?q=1", nil)
 	case "invalid":
 		return httptest.NewRequest("POST", "http://localhost/r?q=notanint", nil)
 	case "invalid-secured":
@@ -501,7 +509,7 @@ func gen(t *rapid.T) Case {
 		}
 		s = append(s, a)
 	}
-	c := Case{Request: rapid.SampledFrom([]string{"valid", "valid", "valid", "invalid", "unroutable", "valid-pl", "invalid-pl", "invalid-pl-header", "invalid-secured"}).Draw(t, "request"), Script: s,
+	c := Case{Request: rapid.SampledFrom([]string{"valid", "valid", "valid", "invalid", "unroutable", "valid-pl", "invalid-pl", "invalid-pl-header", "invalid-secured", "unroutable-head", "unroutable-head-bad", "unroutable-method"}).Draw(t, "request"), Script: s,
 		Strict: rapid.Bool().Draw(t, "strict"), OnErr: rapid.Bool().Draw(t, "onerr"), Front: rapid.SampledFrom([]string{"validator", "validator", "validator", "handler-serve", "handler-middleware"}).Draw(t, "front"),
 		Prelude: rapid.SampledFrom([]string{"", "", "head", "invalid", "unroutable", "bad-response", "good-response"}).Draw(t, "prelude"),
 		VOpts:   rapid.SampledFrom([]int{0, 0, 1, 2, 3, 4, 5, 7}).Draw(t, "vopts")}
